@@ -753,8 +753,9 @@ def gen_packet(draw, doc, mutate=True, model=None):
     m = model or xref.Model(doc)
     chooser = make_chooser(draw, doc)
     want = draw(st.sampled_from(["ok", "ok", "ok", "any"]))
+    rewind = draw(st.booleans())
     for _ in range(4):
-        res = xref.decode(m, b"", chooser=chooser, prefix_bits="")
+        res = xref.decode(m, b"", chooser=chooser, prefix_bits="", rewind_negative=rewind)
         if want == "any" or res.status == "ok":
             break
     bits = res.final_bits
